@@ -22,9 +22,12 @@ if go test -vet=off -count=1 ./... > "$W/suite.log" 2>&1; then D=pass; else D=FA
 cd /
 git -C /repo worktree remove --force "$W/wt"
 # now the check itself, on /repo
+# (serialised: several confirmations may run side by side, but only one at a time may touch /repo)
+exec 9> /tmp/seedcheck.repo.lock; flock 9
 git -C /repo apply "$SRC/patch.diff"
 /verif/run.sh "$PROP" quick > "$W/check.log" 2>&1; E=$?
 git -C /repo checkout -- . ; git -C /repo clean -fdq
+flock -u 9
 res "demo_clean=$A build=$B demo_patched=$C suite=$D check_exit=$E"
 grep -E "^(VIOLATED|UNDECIDED)" "$W/check.log" | cut -c1-260 | head -5
 [ "$D" = FAIL ] && grep -E "^(FAIL|---)" "$W/suite.log" | head -5
